@@ -101,4 +101,5 @@ def run(rep, tier, seed, replay):
                    samples=samples, input_distribution=stats, mismatches=mism, exhaustive=(tier == "thorough"))
     rep.assumptions += ["plain (unencrypted) connections", "a blocked write accepts no byte at all (no partial writes inside a message)",
                         "integers in peer messages fit int64", "each scripted peer index connects at most once per case",
-                        "fetcher side: safety (completion only with verified metadata) and request ids; not liveness"]
+                        "fetcher side: safety (completion only with verified metadata) and request ids; not liveness",
+                        "observation (liveness against lying providers is not claimed by C20): the first peer's metadata_size wins, so one peer lying about the size makes later honest peers get 'size mismatch' and the magnet never completes; a hash-failed metadata chunk was not re-requested from the same peer on a tick"]
